@@ -202,6 +202,10 @@ class Client(object):
         self.io.send_command(command)
 
         self._flush_pipeline()
+        if helo.code == '250':
+            # A HELO session has no extensions, whatever an earlier EHLO
+            # (e.g. the one before STARTTLS) advertised.
+            self.extensions.reset()
 
         return helo
 
